@@ -449,7 +449,11 @@ func cliOracleC10(r *Rng, n int, thorough bool, seeds []string) *OracleResult {
 		res.Evaluations++
 		res.Tags["identical-answers"]++
 		if w := cliIdenticalAnswersProbe(v6, 4); w != "" {
-			res.fail(Failure{Oracle: "c10", Input: line, What: w, Class: "acceptable-datagram-missed"})
+			class := "acceptable-datagram-missed"
+			if strings.Contains(w, "a call nobody answers") {
+				class = "unanswered-call-ends-early"
+			}
+			res.fail(Failure{Oracle: "c10", Input: line, What: w, Class: class})
 		}
 	}
 	for i := 0; i < n; i++ {
